@@ -95,7 +95,9 @@ pub fn classify(ds: &[Elem], obs: &mut Obs) {
     }
 }
 
-pub fn check(c: &Case, obs: &mut Obs) {
+/// Build the in-memory object for the case and write it.  Returns the written bytes, the IR the
+/// output must be equivalent to, the length mode on the wire, and whether the options API was used.
+pub fn build_and_write(c: &Case, obs: &mut Obs, prop: &str) -> Option<(Vec<u8>, Vec<Elem>, LenMode, bool)> {
     let (ts, enc, tsname) = ts_of(c.ts);
     let mut ir = c.ds.clone();
     if c.from_reference_bytes && enc == Ts::ExplicitBE {
@@ -121,8 +123,8 @@ pub fn check(c: &Case, obs: &mut Obs) {
             Ok(o) => {
                 if let Err(m) = obj_matches(&o, &ir, enc, LenMode::AsFlagged, "") {
                     let (k, d) = split_mm(&m);
-                    obs.fail(format!("C01:read of reference encoding differs:{k}"), format!("[{tsname}] {d}"));
-                    return;
+                    obs.fail(format!("{prop}:read of reference encoding differs:{k}"), format!("[{tsname}] {d}"));
+                    return None;
                 }
                 if enc == Ts::ImplicitLE {
                     // what the reader necessarily holds for unknown-tag defined-length sequences
@@ -132,10 +134,10 @@ pub fn check(c: &Case, obs: &mut Obs) {
             }
             Err(e) => {
                 obs.fail(
-                    "C01:reference encoding rejected by reader",
+                    format!("{prop}:reference encoding rejected by reader"),
                     format!("[{tsname}] {e}: {:?}", snafu_chain(&e)),
                 );
-                return;
+                return None;
             }
         }
     } else {
@@ -163,12 +165,18 @@ pub fn check(c: &Case, obs: &mut Obs) {
     };
     if let Err(e) = wr {
         obs.fail(
-            format!("C01:write failed:{}", err_kind(&e)),
+            format!("{prop}:write failed:{}", err_kind(&e)),
             format!("[{tsname}] write error: {e}: {:?}", snafu_chain(&e)),
         );
-        return;
+        return None;
     }
     let written_mode = if c.no_change { mode_if_kept } else { LenMode::AllUndefined };
+    Some((out, ir, written_mode, use_options))
+}
+
+pub fn check(c: &Case, obs: &mut Obs) {
+    let (ts, enc, tsname) = ts_of(c.ts);
+    let Some((out, ir, written_mode, use_options)) = build_and_write(c, obs, "C01") else { return };
 
     // --- read back with the same transfer syntax
     let back = match InMemDicomObject::read_dataset_with_ts(&out[..], &ts) {
